@@ -81,7 +81,8 @@ def classify(src: str) -> Optional[str]:
             for m, c in inner:
                 if m in ("Select", "Where") and c.args and isinstance(c.args[0], ast.Lambda):
                     lam = c.args[0]
-                    if lam.args.args and lam.args.args[0].arg not in names(lam.body):
+                    # (a body that mentions no variable at all - a literal - is translated correctly and is not in this class)
+                    if lam.args.args and names(lam.body) and lam.args.args[0].arg not in names(lam.body):
                         found.append("c01:agg-summand-outer-only")
             if any(m == "SelectMany" for m, _ in inner) and not (isinstance(root, ast.Name) and root.id == "ds"):
                 found.append("c01:terminal-over-sequence-built-in-outer-loop")
